@@ -30,7 +30,7 @@ SumF(F(_), s, i) == IF i > Len(s) THEN 0 ELSE F(s[i]) + SumF(F, s, i + 1)
 
 ---------------------------------------------------------------------------
 (* Transactions *)
-\* input  : [asset, v, abf, vbf, conf]                   (the spent output and its secrets)
+\* input  : [asset, v, abf, vbf, mode]                   (the spent output and its secrets; mode as for outputs)
 \* issue  : [on : input index (0 = none), v, vc, vb, tv, tc, tb]
 \*          asset amount v of asset "N" (0 = Null), token amount tv of asset "T" (0 = Null); vc / tc: the amount is a
 \*          commitment (under the unblinded generator) with blinder vb / tb
@@ -43,12 +43,14 @@ EVbf(o) == IF VConf(o) THEN o.vbf ELSE 0
 ROut(o) == RR(o.v, EAbf(o), EVbf(o))
 Commit(o)    == << o.asset, o.v, ROut(o) >>
 GenOf(o)     == << o.asset, EAbf(o) >>
-RIn(i)       == IF i.conf THEN RR(i.v, i.abf, i.vbf) ELSE 0
+IVConf(i) == i.mode \in {"full", "value"}
+IAConf(i) == i.mode \in {"full", "asset"}
+RIn(i)       == RR(i.v, IF IAConf(i) THEN i.abf ELSE 0, IF IVConf(i) THEN i.vbf ELSE 0)
 InCommit(i)  == << i.asset, i.v, RIn(i) >>
-InGen(i)     == << i.asset, IF i.conf THEN i.abf ELSE 0 >>
+InGen(i)     == << i.asset, IF IAConf(i) THEN i.abf ELSE 0 >>
 \* the pseudo-inputs an issuance contributes, in the documented order: issued asset, then reissuance token
-Pseudo(iss) == (IF iss.v > 0 THEN << [asset |-> "N", v |-> iss.v, abf |-> 0, vbf |-> iss.vb, conf |-> iss.vc] >> ELSE << >>)
-               \o (IF iss.tv > 0 THEN << [asset |-> "T", v |-> iss.tv, abf |-> 0, vbf |-> iss.tb, conf |-> iss.tc] >> ELSE << >>)
+Pseudo(iss) == (IF iss.v > 0 THEN << [asset |-> "N", v |-> iss.v, abf |-> 0, vbf |-> iss.vb, mode |-> IF iss.vc THEN "value" ELSE "expl"] >> ELSE << >>)
+               \o (IF iss.tv > 0 THEN << [asset |-> "T", v |-> iss.tv, abf |-> 0, vbf |-> iss.tb, mode |-> IF iss.tc THEN "value" ELSE "expl"] >> ELSE << >>)
 \* inputs interleaved with pseudo-inputs: inp_1, [inp_1 issuance, inp_1 tokens], inp_2, ...
 RECURSIVE AllIns(_, _, _)
 AllIns(ins, iss, k) ==
@@ -66,8 +68,10 @@ MkSP(o, dom) == <<"sp", GenOf(o), dom>>
 Assets(tx, utxos) == { utxos[k].asset : k \in DOMAIN utxos } \cup { tx.outs[k].asset : k \in DOMAIN tx.outs } \cup {"N", "T"}
 ValIf(x, a) == IF x.asset = a THEN x.v ELSE 0
 \* explicit zero values: skipped on provably unspendable scripts, an error otherwise (whatever the form of the asset)
-ZeroSkipped(o) == ~VConf(o) /\ o.v = 0 /\ o.script = "unspendable"
-ZeroIllegal(o) == ~VConf(o) /\ o.v = 0 /\ o.script # "unspendable"
+\* provably unspendable: OP_RETURN first, the empty script (fee form), or longer than the maximal script size (10000 bytes)
+Unspendable(sc) == sc \in {"unspendable", "empty", "big10001"}
+ZeroSkipped(o) == ~VConf(o) /\ o.v = 0 /\ Unspendable(o.script)
+ZeroIllegal(o) == ~VConf(o) /\ o.v = 0 /\ ~Unspendable(o.script)
 Counted(tx)    == SelectSeq(tx.outs, LAMBDA o : ~ZeroSkipped(o))
 
 Verify(tx, utxos) ==
@@ -150,8 +154,8 @@ TamperedOutputs(t) ==
   \cup (IF t.iss.on # 0 /\ t.iss.tv > 0 THEN { IF t.iss.tc THEN [t EXCEPT !.iss.tb = Add(@, 1)] ELSE [t EXCEPT !.iss.tv = @ + 1] } ELSE {})
 TamperedUtxos(u) ==
   { [u EXCEPT ![k].v = @ + 1] : k \in DOMAIN u } \cup { [u EXCEPT ![k].asset = OtherAsset(@)] : k \in DOMAIN u }
-  \cup { [u EXCEPT ![k].vbf = Add(@, 1)] : k \in { j \in DOMAIN u : u[j].conf } }
-  \cup { [u EXCEPT ![k].abf = Add(@, 1)] : k \in { j \in DOMAIN u : u[j].conf } }
+  \cup { [u EXCEPT ![k].vbf = Add(@, 1)] : k \in { j \in DOMAIN u : IVConf(u[j]) } }
+  \cup { [u EXCEPT ![k].abf = Add(@, 1)] : k \in { j \in DOMAIN u : IAConf(u[j]) } }
   \cup { SubSeq(u, 1, Len(u) - 1), Append(u, u[1]) }
 \* C05: from a verifying transaction every effective tamper is rejected
 TampersRejected ==
